@@ -7,6 +7,7 @@ from __future__ import annotations
 
 import argparse
 import importlib
+import tempfile
 import json
 import os
 import sys
@@ -271,7 +272,7 @@ def decide(pid, prop, tier, seed, results, extra, t0, args):
         else:
             real_violations.append(v)
 
-    if args.update_lock:
+    if args.update_lock and not args.only and os.path.realpath(os.environ.get("PYVC_REPO", "/repo")) == os.path.realpath("/repo"):
         os.makedirs(os.path.join(VERIF, "obligations"), exist_ok=True)
         with open(os.path.join(VERIF, "obligations", f"{pid}.lock.json"), "w") as fh:
             json.dump({"property": pid, "discharged": sorted(names_ok)}, fh, indent=1)
@@ -312,6 +313,10 @@ def decide(pid, prop, tier, seed, results, extra, t0, args):
         print(f"ENGINE-ERROR property={pid} zero obligations generated", file=sys.stderr)
         rc = 3
 
+    # obligations that count: discharged ones plus every one that failed or stayed undecided
+    # (informational and known-finding obligations are listed separately)
+    not_discharged = {(v.get("contract"), v.get("obligation"), v.get("case")) for v in real_violations} | {(u.get("contract"), u.get("obligation"), u.get("case")) for u in undecided}
+    ob_total = discharged + len(not_discharged)
     level = getattr(prop, "LEVEL", "proof")
     all_deductive = not any(s["role"] == "bounded stand-in" for s in standins)
     ev = {
@@ -348,8 +353,12 @@ def decide(pid, prop, tier, seed, results, extra, t0, args):
         "wall_s": round(time.time() - t0, 2),
         "violations": len(real_violations),
     }
-    os.makedirs(os.path.join(VERIF, "evidence"), exist_ok=True)
-    with open(os.path.join(VERIF, "evidence", f"{pid}.json"), "w") as fh:
+    # evidence under /verif/evidence is only written by a full run against /repo itself; partial
+    # (--only) runs and runs against a scratch tree (PYVC_REPO) write to a scratch location
+    scratch = bool(args.only) or os.path.realpath(os.environ.get("PYVC_REPO", "/repo")) != os.path.realpath("/repo")
+    ev_dir = os.path.join(tempfile.gettempdir(), "pyvc-evidence") if scratch else os.path.join(VERIF, "evidence")
+    os.makedirs(ev_dir, exist_ok=True)
+    with open(os.path.join(ev_dir, f"{pid}.json"), "w") as fh:
         json.dump(ev, fh, indent=1, default=repr)
     print(f"{pid}: obligations={ob_total} discharged={discharged} names={len(names_ok)}/{len(names_all)} standin_cases={sum(s['cases'] for s in standins)} violations={len(real_violations)} known={len(printed)} undecided={len(undecided)} wall={ev['wall_s']}s rc={rc}")
     return rc
